@@ -488,7 +488,8 @@ def _single_section(prog, la, rep, classes, exempt_names):
         if enters[k] == 0:
             continue
         inherits = [c.name for n in f.cfg.nodes for call in la.node_calls(f, n)
-                    for c in prog.callees(f.unit, call) if not isinstance(c, Ext) and enters.get(c.key, 0) >= 2]
+                    for c in prog.callees(f.unit, call) if not isinstance(c, Ext) and enters.get(c.key, 0) >= 2
+                    and not c.static and classes.get(c.name) in ('insert', 'get', 'remove', 'clear', 'flatten')]
         if inherits:
             rep.notes.setdefault('B-single_inherited', []).append('%s inherits from %s' % (f.name, sorted(set(inherits))))
             continue   # root cause is reported at the callee
